@@ -2,6 +2,7 @@ package wasi_snapshot_preview1
 
 import (
 	"context"
+	"math"
 	"time"
 
 	"github.com/tetratelabs/wazero/api"
@@ -57,6 +58,11 @@ func pollOneoffFn(_ context.Context, mod api.Module, params []uint64) sys.Errno 
 
 	if nsubscriptions == 0 {
 		return sys.EINVAL
+	}
+	// The sizes below are 32-bit: more subscriptions than this cannot be in
+	// memory anyway, and would wrap to a buffer smaller than the loop bound.
+	if nsubscriptions > math.MaxUint32/48 {
+		return sys.EFAULT
 	}
 
 	mem := mod.Memory()
